@@ -268,6 +268,21 @@ class AutoSerialize:
             ]
 
         # Main branch: choose between zip and directory storage
+        try:
+            self._save_to_store(
+                path, store, skip_names, skip_types, compressors, write_skip_metadata
+            )
+        except BaseException:
+            # never leave a partially written (but loadable) target behind
+            if os.path.isdir(path):
+                shutil.rmtree(path, ignore_errors=True)
+            elif os.path.exists(path):
+                os.remove(path)
+            raise
+
+    def _save_to_store(
+        self, path, store, skip_names, skip_types, compressors, write_skip_metadata
+    ) -> None:
         if store == "zip":
             # Always use tempdir for safe atomic write
             with tempfile.TemporaryDirectory() as tmpdir:
